@@ -11,7 +11,8 @@ LEVEL = ("Mechanism level: the C01 panic census restricted to code reachable fro
          "built by actions that record an error; every grammar action that builds an instruction calls a validator "
          "method; type-derived coverage obligations: every variable-bearing field of every instruction AST type, and every "
          "variable-bearing variant payload of the argument enums, is read by the validator (stream/map names exempt by "
-         "language rule); finalize runs all checks. The scoping semantics of contains_variable itself is not decided.")
+         "language rule); finalize runs all checks. The scoping semantics of contains_variable itself is not decided."
+         " Added: definition strictly before use (both span comparisons strict); every deferred use is judged (no first-value-only MultiMap walk) — today two known findings.")
 
 VARIABLE_TYPES = ("values::Scalar<", "values::ScalarWithLambda<", "values::CanonStream<", "values::CanonStreamWithLambda<", "values::CanonStreamMap<",
                   "values::CanonStreamMapWithLambda<", "values::ImmutableVariable<", "values::ImmutableVariableWithLambda<", "ImmutableValue<", "ApArgument<",
